@@ -1,6 +1,8 @@
 package main
 
 import (
+	"verif/internal/prng"
+
 	"bytes"
 	"fmt"
 	"io"
@@ -22,6 +24,33 @@ func c01Counts(c *ev.Ctx) (n int, big bool) {
 
 // bigCases are the few inputs beyond the 2 MiB uncompressed chunk limit.
 func bigXZCases(seed uint64) []xzCase {
+	return append(chunkLimitCases(seed), bigFixedCases(seed)...)
+}
+
+// chunkLimitCases put the encoder's ring buffer (DictCap+BufSize+1 bytes) next to the size of
+// a full chunk (up to 64 KiB compressed, a little more uncompressed): whether the bytes of a
+// chunk that is to be stored raw are still resident depends on both numbers.  Incompressible
+// data (several chunks per block), a compressible tail, alone and followed by more noise.
+func chunkLimitCases(seed uint64) []xzCase {
+	var out []xzCase
+	r := prng.New(seed, 17)
+	i := 0
+	for _, d := range []int{45000, 49152, 53000, 57344, 59000, 61000, 62000, 63000, 64000, 65000, 65535, 66000, 66200, 67000, 70000} {
+		for _, b := range []int{273, 0, 8192, 16384} {
+			fam := []string{"random", "sandwich2", "noisyrep", "altseg"}[i%4]
+			n := 140000 + r.Intn(30000)
+			if fam == "sandwich2" {
+				n = 300000
+			}
+			out = append(out, xzCase{ID: fmt.Sprintf("lim%d", i), LC: 3, PB: 2, DictCap: d, BufSize: b, Check: []string{"crc32", "none", "crc64"}[i%3], Matcher: 0,
+				Family: fam, N: n, Part: []string{"one", "random"}[i%2], Seed: seed + 1000 + uint64(i)})
+			i++
+		}
+	}
+	return out
+}
+
+func bigFixedCases(seed uint64) []xzCase {
 	return []xzCase{
 		{ID: "big0", LC: 3, LP: 0, PB: 2, DictCap: 65536, Check: "crc32", Matcher: 0, Family: "zeros", N: 2<<20 + 70000, Part: "one", Seed: seed + 1},
 		{ID: "big1", LC: 0, LP: 2, PB: 0, DictCap: 1 << 20, Check: "sha256", Matcher: 0, Family: "text", N: 2<<20 + 4097, Part: "random", Seed: seed + 2},
